@@ -25,6 +25,7 @@ type natCfg struct {
 	oneToOne           int           // >0: 1:1 mode with that many IP pairs
 	viaRouter          bool          // inbound datagrams enter through Router.onInboundChunk of a real LAN router (not the translator alone)
 	twoIPs             bool          // NAPT router that holds a second external address (only the first is used for mappings)
+	portPres           bool          // NAPT with NATType.PortPreservation set (a 1:1-mode notion; NAPT assigns "some fresh port" regardless)
 	pairedLocal        bool          // NAPT router whose external addresses were written as "external/local" pairs (the pairing means nothing outside 1:1 mode)
 }
 
@@ -45,6 +46,9 @@ func (c natCfg) String() string {
 	}
 	if c.pairedLocal {
 		x += ",external IPs paired with local IPs"
+	}
+	if c.portPres {
+		x += ",PortPreservation set"
 	}
 	return fmt.Sprintf("map=%s,filt=%s,life=%v%s", depName(c.mapping), depName(c.filtering), c.life(), x)
 }
@@ -108,6 +112,7 @@ type natSys struct {
 
 func newNatSys(mode string, cfg natCfg, alpha []string, lastOp *string) *natSys {
 	t := vnet.NATType{MappingBehavior: cfg.mapping, FilteringBehavior: cfg.filtering, MappingLifeTime: cfg.lifetime}
+	t.PortPreservation = cfg.portPres
 	var mapped, local []string
 	if cfg.oneToOne > 0 {
 		t.Mode = vnet.NATModeNAT1To1
@@ -551,7 +556,9 @@ func runNATBody(mode, tier string, shard, shards int, rep *SeqReport, lastOp, cu
 	cfgs = append(cfgs, natCfg{mapping: vnet.EndpointIndependent, filtering: vnet.EndpointIndependent, twoIPs: true},
 		natCfg{mapping: vnet.EndpointAddrPortDependent, filtering: vnet.EndpointAddrDependent, twoIPs: true},
 		natCfg{mapping: vnet.EndpointIndependent, filtering: vnet.EndpointAddrPortDependent, pairedLocal: true},
-		natCfg{mapping: vnet.EndpointAddrDependent, filtering: vnet.EndpointAddrDependent, twoIPs: true, pairedLocal: true})
+		natCfg{mapping: vnet.EndpointAddrDependent, filtering: vnet.EndpointAddrDependent, twoIPs: true, pairedLocal: true},
+		natCfg{mapping: vnet.EndpointIndependent, filtering: vnet.EndpointIndependent, portPres: true},
+		natCfg{mapping: vnet.EndpointAddrPortDependent, filtering: vnet.EndpointAddrPortDependent, portPres: true, lifetime: 100 * time.Millisecond})
 	depth, maxStates := 5, int64(100000)
 	if thorough {
 		depth, maxStates = 7, 600000
